@@ -79,8 +79,8 @@ func hScalarOf(k int) any {
 
 func hAnyScalar() any { return hScalarOf(nondetIntRange(hkNil, hkString)) }
 
-func hListWithSpare(n, spare int) *list {
-	l := NewListOf(nil, n+spare).(*list)
+func hListWithSpare(n, spare int) List {
+	l := NewListOf(nil, n+spare)
 	for i := 0; i < spare; i++ {
 		l.Pop()
 	}
